@@ -91,7 +91,7 @@ def race_stream(c, tier, seed, replay_case=None):
             # the canonical cases are repeated until they show (detection needs an actual overlap in time)
             acc = dict(records=[], crashes=[], stderr={}, timed_out=False)
             for attempt in range(2):
-                r = U.drive(exe, "race", ["-n", "-2", "jobs=" + cp, "G=%d" % G, "R=250"], env=env, timeout=300)
+                r = U.drive(exe, "race", ["-n", "-2", "jobs=" + cp, "G=%d" % G, "R=120"], env=env, timeout=300)
                 acc["records"] += r["records"]
                 acc["crashes"] += r["crashes"]
                 for k, v in r["stderr"].items():
